@@ -108,15 +108,8 @@ def build(E):
         modifies=lambda ctx, fr: [(fr.locals["self"].oid, "g_next")])
 
     def wiring(E):
-        mod, _, fn = E.repo.find("nauyaca.server.server:start_server")
-        src = ast.unparse(fn)
-        want = ["middleware_chain = MiddlewareChain(middlewares) if middlewares else None",
-                "middlewares.append(cert_auth)", "middlewares.append(access_control)", "middlewares.append(rate_limiter)"]
-        missing = [w for w in want if w not in src]
-        protos = [n_ for n_ in ast.walk(fn) if isinstance(n_, ast.Call) and isinstance(n_.func, ast.Name) and n_.func.id == "GeminiServerProtocol"]
-        bad = [ast.unparse(c) for c in protos if not (len(c.args) >= 2 and isinstance(c.args[1], ast.Name) and c.args[1].id == "middleware_chain")]
-        ok = not missing and not bad and len(protos) >= 2
-        return ok, "both TLS back ends construct GeminiServerProtocol(router.route, middleware_chain) with the chain built from every configured component" if ok else f"missing {missing}; bad {bad}"
+        from contracts.wiring import chain_wiring
+        return chain_wiring(E, {"CertificateAuth": "certificate_auth_config", "AccessControl": "access_control_config", "RateLimiter": "rate_limit_config"})
     spec.syntactic.append(("[C04] start_server hands the same chain to the protocol on both TLS back ends", wiring))
     old_keep = spec.keep
     spec.keep = lambda name: old_keep(name) or "MiddlewareChain" in name or "component.process_request" in name
